@@ -70,9 +70,13 @@ def create_directory(U):
     U.ensures("creates exactly the requested directory, only when missing", o.ok and fs.created_dirs == ([] if exists else ["out/a"]))
 
 
-HOSTILE = ["La/b/C;", "L../../esc;", "L../x;", "L/abs/x;", "L./x;", "La//b;", "La/../../../y;", "L..;", "L.;", "L;", "La/..;",
+HOSTILE = ["La/b/C;", "Lcom/example/;", "L../../esc;", "L../x;", "L/abs/x;", "L./x;", "La//b;", "La/../../../y;", "L..;", "L.;", "L;", "La/..;",
            "L" + "x" * 300 + ";", "Lsp ace/dot./x;", "La/b/../../../../z;"]
-METHS = ["m", "../../m", "/abs", "a/b", "..", "<init>", "a/../../../pwn/xyz", "x/../../../../../e", "a/b/../../../../../../f/g", "/../../../h/i"]
+METHS = ["m", "../../m", "/abs", "a/b", "..", "<init>", "a/../../../pwn/xyz", "x/../../../../../e", "a/b/../../../../../../f/g", "/../../../h/i",
+         "@WATCHED@/escaped"]          # an absolute path into an existing directory (the watched directory above the output directory)
+# classes that cooperate: the folder the first one creates makes the '..' chain in a method name of the second one resolvable
+PAIRS = [(("LA/A x;", "m"), ("LA;", "x/../../../esc")), (("La/b/c;", "m"), ("La;", "b/c/../../../../esc2")),
+         (("Lp/q;", "m"), ("Lp/q;", "../../../esc3"))]
 
 
 class _M:
@@ -89,8 +93,9 @@ class _M:
         return "()V"
 
     def get_short_string(self):
-        c = self.cls[1:-1].rsplit("/", 1)[-1] if self.cls.startswith("L") else self.cls
-        return "{} {} ()V".format(c, self.name)
+        # the real EncodedMethod.get_short_string (it only uses the three accessors above), not a copy of its format
+        from pyvc import loader
+        return loader.import_real("androguard/core/dex/__init__.py").EncodedMethod.get_short_string(self)
 
 
 class _C:
@@ -132,6 +137,8 @@ def _enum(tier, **_):
     for ci in range(len(HOSTILE)):
         for mi in range(len(METHS)):
             yield {"cls": ci, "meth": mi}
+    for pi in range(len(PAIRS)):
+        yield {"pair": pi}
 
 
 @unit("C37", covers=[(MAIN, "export_apps_to_format"), (MAIN, "valid_class_name"), (MAIN, "create_directory")], level="bounded",
@@ -149,8 +156,12 @@ def export_sandbox(U):
     bc.method2dot = lambda mx: "digraph{}"
     bc.method2format = lambda *a, **k: None
     m.get_bytecodes_method = lambda vm, vmx, meth: "bytecodes"
+    if "pair" in g:
+        ms = [_M(c, n) for c, n in PAIRS[g["pair"]]]
+    else:
+        ms = [_M(HOSTILE[g["cls"]], METHS[g["meth"]].replace("@WATCHED@", os.path.join(root, "w")))]
     try:
-        o = U.call(m.export_apps_to_format, "in.dex", _S(_VM([_M(HOSTILE[g["cls"]], METHS[g["meth"]])])), out)
+        o = U.call(m.export_apps_to_format, "in.dex", _S(_VM(ms)), out)
     finally:
         bc.method2dot, bc.method2format, m.get_bytecodes_method = saved
     created = []
@@ -161,7 +172,7 @@ def export_sandbox(U):
                and not out.startswith(p)]
     shutil.rmtree(root, ignore_errors=True)
     U.ensures("nothing is created outside the output directory", not outside, outside=outside,
-              cls=HOSTILE[g["cls"]][:40], exc=repr(o.exc)[:200])
+              cls=[x.cls[:40] for x in ms], meth=[x.name[:60] for x in ms], exc=repr(o.exc)[:200])
 
 
 export_sandbox.enumerate_inputs = lambda tier, **p: _enum(tier)
